@@ -17,6 +17,9 @@ theorem dtorJoinsIfStarted_tie : dtorJoinsIfStarted = true := rfl
 theorem publishNotifies_tie : publishNotifies = true := rfl
 theorem clearLocks_tie : clearLocks = true := rfl
 theorem startWaitsWhile_tie : startWaitsWhile = true := rfl
+theorem finishSets_tie : finishSets = true := rfl
+theorem finishNotifies_tie : finishNotifies = true := rfl
+theorem startChecksFinished_tie : startChecksFinished = true := rfl
 /-- the parts of the code's shape that the model of quit / EventLoopThread takes for granted -/
 theorem shape_tie_quit : quitStoresFirst = true ∧ whileTestsQuit = true ∧ publishLocks = true := ⟨rfl, rfl, rfl⟩
 
@@ -25,6 +28,7 @@ macro "qties" : tactic => `(tactic| (
   have := quitResetAtEntry_tie; have := quitResetAtExit_tie
   have := dtorLocks_tie; have := dtorJoinsIfStarted_tie
   have := publishNotifies_tie; have := clearLocks_tie; have := startWaitsWhile_tie
+  have := finishSets_tie; have := finishNotifies_tie; have := startChecksFinished_tie
   have := quitWakes_foreign; have := quitWakes_loop))
 
 /-! ## the invariant -/
